@@ -48,8 +48,9 @@ LATIN1 = [s for s in STRINGS if all(ord(c) < 256 for c in s)]
 @st.composite
 def wide_pool_points(draw, strings):
     t = draw(gen.times())
-    tk = draw(st.lists(st.sampled_from(["a", "a", "b", "t x", "k,1", "é"] if "é" in strings else ["a", "a", "b", "t x", "k,1"]), max_size=2, unique=True))
-    fk = draw(st.lists(st.sampled_from(gen.W_FKEYS), max_size=2, unique=True))
+    # keys include look-alikes of the key prefixes themselves
+    tk = draw(st.lists(st.sampled_from(["a", "a", "b", "t x", "k,1", "t_k", "f_k", "_tag_x", "é"] if "é" in strings else ["a", "a", "b", "t x", "k,1", "t_k", "f_k", "_tag_x"]), max_size=2, unique=True))
+    fk = draw(st.lists(st.sampled_from(gen.W_FKEYS + ["f_k", "t_k", "_field_x"]), max_size=2, unique=True))
     sv = st.sampled_from(strings)
     return {
         "time": t,
